@@ -179,8 +179,8 @@ Definition nan_bad2 (n step : nat) (i : nat) (m : st) : bool :=
 Definition nan_bad1 (n step : nat) (lv : nat) (m : st) : bool :=
   Nat.eqb (length (level_ids (demes m) lv)) 0 || existsb (fun i => nan_bad2 n step i m) (level_ids (demes m) lv).
 
-Lemma nan_body2 c fuel n lv step i s evs :
-  gen_NoActiveNonrootDemes_forv2 c fuel n lv step i s evs = Some ((if nan_bad2 n step i (ms s) then Some false else None), s, evs).
+Lemma nan_body2 c fuel n step i s evs :
+  gen_NoActiveNonrootDemes_forv2 c fuel n step i s evs = Some ((if nan_bad2 n step i (ms s) then Some false else None), s, evs).
 Proof.
   unfold gen_NoActiveNonrootDemes_forv2, nan_bad2. dunf. destruct (d_active (dnth i (demes (ms s)))); cbn [orb]; [reflexivity|].
   destruct (step <=? _); reflexivity.
@@ -189,7 +189,7 @@ Lemma nan_body1 c fuel n step lv s evs :
   gen_NoActiveNonrootDemes_forv1 c fuel n step lv s evs = Some ((if nan_bad1 n step lv (ms s) then Some false else None), s, evs).
 Proof.
   unfold gen_NoActiveNonrootDemes_forv1, nan_bad1. dunf. destruct (Nat.eqb (length (level_ids (demes (ms s)) lv)) 0); cbn [orb]; [reflexivity|].
-  rewrite (forv_check (nan_bad2 n step) _ (nan_body2 c fuel n lv step)). destruct (existsb _ _); reflexivity.
+  rewrite (forv_check (nan_bad2 n step) _ (nan_body2 c fuel n step)). destruct (existsb _ _); reflexivity.
 Qed.
 Theorem NoActiveNonrootDemes_ok c fuel n s :
   exists b, answers (gen_NoActiveNonrootDemes c fuel n) s b /\ gsc_eval (GNoActiveNonroot n) (height c) (ms s) = Some b.
